@@ -1068,3 +1068,155 @@ func abs64(k int64) int64 {
 	}
 	return k
 }
+
+// ---------------------------------------------------------------------------
+// R-FLOAT-EXC (C07; added with fix F16): evaluation_error(float_overflow) is raised only when the IEEE
+// result is infinite. At every return of the float_overflow value the branch facts contain
+//   (a) a test of a computed value with math.IsInf (the repository's own idiom in power), or
+//   (b) a pre-check by comparison in which no operand of the function has been moved across the
+//       inequality by multiplication or division without its sign being known (a fact `p < 0`, `p > 0`, …
+//       on that operand, or the operand wrapped in math.Abs): `x > Max/y` holds for every x when y is
+//       negative, so a product with a negative right operand "overflows".
+// A return of float_overflow under no numeric test at all is reported too.
+
+func ruleFloatExc(c *Ctx, r *Report) {
+	const rule = "R-FLOAT-EXC"
+	desc := "float_overflow is raised only under a test of the result for infinity or a sign-aware pre-check"
+	var ovf *types.Const
+	if o := c.Engine.Pkg.Scope().Lookup("exceptionalValueFloatOverflow"); o != nil {
+		ovf, _ = o.(*types.Const)
+	}
+	if ovf == nil {
+		r.undecided(rule, "anchor:exceptionalValueFloatOverflow", "-", "locate the float_overflow value", "not found")
+		return
+	}
+	isOvf := func(v ssa.Value) bool {
+		for _, l := range c.originSet(v) {
+			if k, ok := l.(*ssa.Const); ok && k.Value != nil && types.Identical(k.Type(), ovf.Type()) && constant.Compare(k.Value, token.EQL, ovf.Val()) {
+				return true
+			}
+		}
+		return false
+	}
+	stripNum := func(v ssa.Value) ssa.Value {
+		for {
+			switch x := v.(type) {
+			case *ssa.Convert:
+				v = x.X
+			case *ssa.ChangeType:
+				v = x.X
+			default:
+				return v
+			}
+		}
+	}
+	isZero := func(v ssa.Value) bool {
+		k, ok := v.(*ssa.Const)
+		return ok && k.Value != nil && (k.Value.Kind() == constant.Int || k.Value.Kind() == constant.Float) && constant.Sign(k.Value) == 0
+	}
+	n := 0
+	for _, fn := range c.LibFuncs() {
+		if funcPkg(fn) != c.Engine {
+			continue
+		}
+		seen := 0
+		eachInstr(fn, func(in ssa.Instruction) {
+			ret, ok := in.(*ssa.Return)
+			if !ok || len(ret.Results) == 0 {
+				return
+			}
+			last := ret.Results[len(ret.Results)-1]
+			if !isErrorType(last.Type()) || !isOvf(last) {
+				return
+			}
+			// a return that merely forwards a callee's error is not a raise site
+			if _, isConstPath := stripConvIface(last).(*ssa.Const); !isConstPath {
+				if _, isPhi := last.(*ssa.Phi); !isPhi {
+					return
+				}
+			}
+			n++
+			seen++
+			key := fmt.Sprintf("%s/float_overflow#%d", fname(fn), seen)
+			facts := c.factsAt(in.Block())
+			hasIsInf, hasCmp := false, false
+			var unsigned ssa.Value
+			signKnown := func(p ssa.Value) bool {
+				for f := range facts {
+					bo, ok := f.cond.(*ssa.BinOp)
+					if !ok {
+						continue
+					}
+					switch bo.Op {
+					case token.LSS, token.GTR, token.LEQ, token.GEQ:
+						if (stripNum(bo.X) == p && isZero(bo.Y)) || (stripNum(bo.Y) == p && isZero(bo.X)) {
+							return true
+						}
+					}
+				}
+				return false
+			}
+			var scan func(v ssa.Value, depth int)
+			scan = func(v ssa.Value, depth int) {
+				v = stripNum(v)
+				bo, ok := v.(*ssa.BinOp)
+				if !ok || depth > 4 {
+					return
+				}
+				if bo.Op == token.MUL || bo.Op == token.QUO {
+					for _, side := range []ssa.Value{bo.X, bo.Y} {
+						s := stripNum(side)
+						if _, isParam := s.(*ssa.Parameter); isParam && !signKnown(s) {
+							unsigned = s
+						}
+					}
+				}
+				scan(bo.X, depth+1)
+				scan(bo.Y, depth+1)
+			}
+			for f := range facts {
+				switch x := f.cond.(type) {
+				case *ssa.Call:
+					if callee := x.Call.StaticCallee(); callee != nil && callee.Pkg != nil && callee.Pkg.Pkg.Path() == "math" && callee.Name() == "IsInf" && f.pol {
+						hasIsInf = true
+					}
+				case *ssa.BinOp:
+					switch x.Op {
+					case token.LSS, token.GTR, token.LEQ, token.GEQ:
+						if isFloatType(x.X.Type()) {
+							hasCmp = true
+							scan(x.X, 0)
+							scan(x.Y, 0)
+						}
+					}
+				}
+			}
+			switch {
+			case hasIsInf:
+				r.ok(rule, key, c.at(in), desc, "raised under math.IsInf(result)", true)
+			case hasCmp && unsigned == nil:
+				r.ok(rule, key, c.at(in), desc, "pre-check by comparison; no operand is multiplied or divided across the inequality without a sign fact", true)
+			case hasCmp:
+				r.bad(rule, fmt.Sprintf("%s/float_overflow", fname(fn)), c.at(in), desc, "the pre-check multiplies/divides the bound by "+valName(unsigned)+" whose sign is not known on this path: for a negative "+valName(unsigned)+" the inequality is reversed and a finite result is reported as overflow")
+			default:
+				r.bad(rule, fmt.Sprintf("%s/float_overflow", fname(fn)), c.at(in), desc, "float_overflow is returned under no numeric test")
+			}
+		})
+	}
+	r.analysed(rule, fmt.Sprintf("%d raise sites of float_overflow", n))
+}
+
+func stripConvIface(v ssa.Value) ssa.Value {
+	for {
+		switch x := v.(type) {
+		case *ssa.MakeInterface:
+			v = x.X
+		case *ssa.ChangeInterface:
+			v = x.X
+		case *ssa.ChangeType:
+			v = x.X
+		default:
+			return v
+		}
+	}
+}
